@@ -23,7 +23,7 @@ THEOREMS = [
     'Pyiga.Props.C17.l2_projection_orthogonal', 'Pyiga.Props.C17.l2_projection_reproduces',
 ]
 MODULES = ['Pyiga.Model.Index', 'Pyiga.Model.LinAlg', 'Pyiga.Model.Approx', 'Pyiga.Proofs.Index',
-           'Pyiga.Proofs.LinAlg', 'Pyiga.Proofs.Tprod', 'Pyiga.Proofs.Approx', 'Pyiga.Props.C17']
+           'Pyiga.Proofs.LinAlg', 'Pyiga.Proofs.Tprod', 'Pyiga.Proofs.Operators', 'Pyiga.Proofs.Approx', 'Pyiga.Props.C17']
 EPS = 2.0 ** -53
 
 
